@@ -212,6 +212,27 @@ CHECKS = {
              "is outside the property.",
         technique="Coq proof (case analysis over the credential ladder) + "
                   "vm_compute correspondence"),
+    "C12": dict(
+        text="Theorems with NO hypothesis on the request path (any code "
+             "points, NUL, repeated or missing leading slashes, dot "
+             "segments): normpath('/' + lstrip(path)) is '/' followed by "
+             "clean segments (none is '', '.' or '..', no '/'), so the "
+             "resolved name is root + '/' + clean segments; a file is served "
+             "only for that name, only if it is a readable regular file and "
+             "only for the GET/HEAD method bits; directories give a listing "
+             "exactly when indexing is on and 403 otherwise; the listing "
+             "rows are exactly the visible entries. Correspondence: model "
+             "normpath vs posixpath.normpath on the exhaustive segment grid; "
+             "model decision vs the real application on a sandbox tree; "
+             "monitor with content tokens and a sys.addaudithook for opens "
+             "outside the root.",
+        design="7/C12",
+        note="lexical confinement only (symlinks and TOCTOU outside); the "
+             "file system is an arbitrary function in the theorems; unknown "
+             "method tokens count as GET (framework rule); file bytes and "
+             "Content-Length are monitored here and proved in C06.",
+        technique="Coq proof (invariant over the normpath stack, case "
+                  "analysis of the decision) + vm_compute correspondence"),
     "C13": dict(
         text="Theorems: the XOR masking is an involution for every key "
              "stream and text; write/load round trip under the codec laws "
